@@ -399,6 +399,41 @@ func checkPacket(c *vf.Ctx, t *tpkt) {
 			})
 		}
 	}
+	// a decoded packet is a value of its own: what it holds must not change when the caller reuses the receive
+	// buffer for the next datagram (servers and the challenger read every datagram into one buffer), and a
+	// packet that was encoded must not be tied to the bytes it returned
+	{
+		buf := append(make([]byte, 0, len(wire)+64), wire...)
+		var held nbtns.NBTNSPacket
+		var herr error
+		if p, _, _ := vf.Try(func() { _, herr = held.Unmarshal(buf) }); !p && herr == nil {
+			for i := range buf {
+				buf[i] ^= 0xA5
+			}
+			spare := buf[len(buf):cap(buf)]
+			for i := range spare {
+				spare[i] = 0x5A
+			}
+			for s := 0; s < 4; s++ {
+				ok, diff := cmpLibSection(s, t.sec[s], &held)
+				c.Check("C10/packet/history/decoded-packet-survives-reuse-of-the-input-buffer/"+secName[s], ok, func() string {
+					return fmt.Sprintf("Unmarshal(buf), then buf overwritten with the next datagram: the packet decoded before now reads: %s; p = %s", diff, t)
+				})
+			}
+		}
+		var again []byte
+		var aerr error
+		first := append([]byte{}, wire...)
+		for i := range wire {
+			wire[i] ^= 0xFF
+		}
+		if p, _, _ := vf.Try(func() { again, aerr = lp.Marshal() }); !p {
+			c.Check("C10/packet/history/second-Marshal-unaffected-by-the-caller-writing-into-the-first-result", aerr == nil && bytes.Equal(again, first), func() string {
+				return fmt.Sprintf("Marshal(); caller overwrites the returned bytes; Marshal() again = %s (%v), first result was %s; p = %s", vf.HexS(again), aerr, vf.HexS(first), t)
+			})
+		}
+		wire = first
+	}
 	// RFC 1002 parser reads the library's bytes
 	rp, failed, rerr := refnbns.Parse(wire)
 	c.Check("C10/packet/rfc1002-parser-reads-library/header", failed != 0 && rp.ID == t.id && rp.Flags == t.flags && int(rp.QD) == len(t.sec[0]) && int(rp.AN) == len(t.sec[1]) &&
@@ -564,6 +599,31 @@ func packetObligations(c *vf.Ctx, names []string, scopes [][]string) {
 		p.sec[2] = []rec{std("LATE", []string{"sc"}, 2, 0), std("EARLY", nil, 2, 1)}
 		p.sec[3] = []rec{std("LATE", []string{"sc"}, 3, 0), std("OTHER", nil, 3, 1), std("OTHER", nil, 3, 2)}
 		pkts = append(pkts, p)
+	}
+	// neighbours: two entries that follow each other (inside one section or across a section boundary) and agree in
+	// the name, in the scope, in both or in neither - an encoder or decoder that carries anything over from the
+	// previous entry (a remembered encoding, a compression target) is seen where the entries differ in one part only
+	type ns struct {
+		n  string
+		sc []string
+	}
+	nbr := []ns{{"FRED", nil}, {"FRED", []string{"sc"}}, {"FRED", []string{"sc", "x"}}, {"FRED", []string{"corp", "example"}}, {"BARNEY", []string{"sc"}}, {"BARNEY", nil}, {"FRE", nil}, {"FREDA", []string{"sc"}}}
+	for _, slots := range [][2][2]int{{{0, 0}, {0, 1}}, {{0, 0}, {1, 0}}, {{1, 0}, {1, 1}}, {{1, 0}, {2, 0}}, {{2, 0}, {2, 1}}, {{2, 0}, {3, 0}}, {{3, 0}, {3, 1}}, {{0, 0}, {3, 0}}, {{1, 0}, {3, 0}}} {
+		for _, x := range nbr {
+			for _, y := range nbr {
+				p := &tpkt{id: 0x4e42, flags: 0x8500}
+				a, b := slots[0], slots[1]
+				p.sec[a[0]] = append(p.sec[a[0]], std(x.n, x.sc, a[0], a[1]))
+				p.sec[b[0]] = append(p.sec[b[0]], std(y.n, y.sc, b[0], b[1]))
+				pkts = append(pkts, p)
+				// and once more with a third entry equal to the first behind them
+				q := &tpkt{id: 0x4e43, flags: 0x8500}
+				q.sec[a[0]] = append(q.sec[a[0]], std(x.n, x.sc, a[0], a[1]))
+				q.sec[b[0]] = append(q.sec[b[0]], std(y.n, y.sc, b[0], b[1]))
+				q.sec[3] = append(q.sec[3], std(x.n, x.sc, 3, 2))
+				pkts = append(pkts, q)
+			}
+		}
 	}
 	c.Set("packets", len(pkts))
 	vf.Par(len(pkts), func(i int) {
